@@ -55,6 +55,11 @@ func genJID(t *rapid.T, label string, wantResource int) jid.JID {
 			res += rapid.SampledFrom(resourceBits).Draw(t, label+"-res")
 		}
 	}
+	if res != "" && rapid.IntRange(0, 7).Draw(t, label+"-blankres") == 0 {
+		// a resourcepart made of nothing but blanks (legal: the OpaqueString
+		// profile maps other spaces to U+0020 and keeps them)
+		res = rapid.SampledFrom([]string{" ", "  ", "\u00a0", " \u2003 "}).Draw(t, label+"-blank")
+	}
 	j, err := jid.New(local, domain, res)
 	if err != nil {
 		// all parts are valid by construction; fall back to something certainly valid
